@@ -328,7 +328,7 @@ def main(chk: Check):
         d = json.loads(corp.read_text())
         if d.get("stream") == "vercmp":
             add_case(parse_text(d["v1"]), d.get("r1"), parse_text(d["v2"]), d.get("r2"))
-    for _ in range(chk.n(1100, 8000)):
+    for _ in range(chk.n(900, 8000)):
         a = gen_version(rng)
         b = neighbour(rng, a) if rng.random() < 0.7 else gen_version(rng)
         if rng.random() < 0.5:
